@@ -21,11 +21,15 @@ def returnOK (c : CacheSite) : Bool :=
   | none => false
 
 def listingOK (s : ListingSite) : Bool :=
-  (s.isSorted && s.key == k! "") ||
+  (s.isSorted && s.keyShape == k! "natural") ||
   match reviewedListingSites.lookup (s.file, s.func, s.call) with
-  | some .sortedByBasename => s.isSorted && s.key == k! "lambda p: p.name"
-  | some .firstFileDecidesInputType => true
+  | some .sortedByBasenameThenPath => s.isSorted && s.keyShape == k! "basename-then-path"
   | none => false
+
+/-- the sites of `expectedListingSites` that are missing or have another shape -/
+def missingListing : List (Nat × Nat × Nat × Nat) :=
+  expectedListingSites.filter (fun e => !listingSites.any (fun s =>
+    s.file == e.1 && s.func == e.2.1 && s.call == e.2.2.1 && s.isSorted && s.keyShape == e.2.2.2))
 
 def handlers : List (String × Handler) := [
   /- det.refute sites|cache|state → none | ok <keys…> : every entry of the generated table that is not justified -/
@@ -47,9 +51,10 @@ def handlers : List (String × Handler) := [
       | [] => "none"
       | bad => "ok " ++ " ".intercalate (bad.map (fun c => s!"({c.file} {c.func} {c.returns})"))
     | [.atom "listing"] =>
-      match listingSites.filter (fun s => !listingOK s) with
+      match (listingSites.filter (fun s => !listingOK s)).map (fun s => s!"({s.file} {s.func} {s.call})") ++
+            missingListing.map (fun e => s!"({e.1} {e.2.1} {e.2.2.1} {e.2.2.2})") with
       | [] => "none"
-      | bad => "ok " ++ " ".intercalate (bad.map (fun s => s!"({s.file} {s.func} {s.call})"))
+      | bad => "ok " ++ " ".intercalate bad
     | [.atom "writes"] =>
       match memoValueWrites.filter (fun w => (reviewedMemoWrites.lookup (w.1, w.2.1, w.2.2.1)).isNone) with
       | [] => "none"
